@@ -65,6 +65,9 @@ def check_scripts(env, rep, prop, scripts, oracle, nontrivial=None):
         if res["same_tick_inputs"]:
             rep.count("discarded:same-tick-inputs")
             continue
+        if script.get("oracle_only"):
+            rep.count("oracle-only:" + str(script["oracle_only"]))
+            continue
         lines.append(prop + " " + " ".join(res["args"]))
         cases.append(case)
         impl.append(res["impl_line"])
@@ -295,11 +298,16 @@ def oracle_c14(res):
         for (t, kind) in lst:
             if kind == "ConRetransmitsExceeded" and r in subs:
                 events.append((t, 0, "giveup", subs[r][3], None))
+    for (t, remote) in res.get("failed_sends", []):
+        events.append((t, 2, "err", remote, None))       # a synchronous transport error
     events.sort(key=lambda e: (e[0], e[1]))
     open_ex = {}          # remote -> mid
     order = {}            # remote -> list of request numbers in first-transmission order
     for (t, _, kind, x, first) in events:
         if kind == "send":
+            if not first and open_ex.get(x["remote"]) != x["mid"]:
+                return (f"zombie: copy of CON mid {x['mid']} sent to {x['remote']} at {t} although its exchange "
+                        f"had ended (acknowledged, failed or timed out)")
             if first:
                 if x["remote"] in open_ex:
                     return (f"two-open: CON mid {x['mid']} first sent to {x['remote']} at {t} while mid "
@@ -330,7 +338,8 @@ def oracle_c14(res):
         if ev[7] is False and ev[6] is None and not ev[4]:
             ts = [s["tick"] for s in sends(res) if s["body"] == 100 + r and 1 <= s["code"] < 32]
             shut = [t for (t, k, f) in ins if k == "X" and t <= ev[1]]
-            if not shut and (not ts or ts[0] != ev[1]):
+            send_failed = any(t == ev[1] and rem == ev[3] for (t, rem) in res.get("failed_sends", []))
+            if not shut and not send_failed and (not ts or ts[0] != ev[1]):
                 return f"non-delayed: NON request {r} submitted at {ev[1]} transmitted at {ts[:1]}"
     return ""
 
